@@ -19,6 +19,7 @@ Step(ev) ==
   CASE ev.a = "init"     -> ResetTo(ev.arg.sizes)
     [] ev.a = "set"      -> Set(ev.arg.id, ev.arg.data, ev.arg.mode, ev.arg.fail)
     [] ev.a = "setraw"   -> SetRaw(ev.arg.id, ev.arg.n)
+    [] ev.a = "setself"  -> SetSelf(ev.arg.id, ev.arg.off, ev.arg.n)
     [] ev.a = "copy"     -> Copy(ev.arg.id, ev.arg.src, ev.arg.fail)
     [] ev.a = "copynull" -> CopyNull(ev.arg.id)
     [] ev.a = "compare"  -> Compare(ev.arg.id, ev.arg.data, ev.arg.mode)
